@@ -383,6 +383,12 @@ func extractOption(nodes map[string]*chanCall, opts ...Option) (map[string][]any
 				// designate to sub graph's nodes
 				nOpt := opt.deepCopy()
 				nOpt.paths = []*NodePath{NewNodePath(path.path[1:]...)}
+				if curNode.action.checkOptions != nil {
+					// a wrong designation is an error of the call, whether or not the sub graph gets to run
+					if err := curNode.action.checkOptions([]Option{nOpt}); err != nil {
+						return nil, fmt.Errorf("sub graph[%s]: %w", curNodeKey, err)
+					}
+				}
 				optMap[curNodeKey] = append(optMap[curNodeKey], nOpt)
 			}
 		}
